@@ -15,10 +15,14 @@ def run(rep, tier):
     from harness import C14_builder as H
 
     parts = xh.write_module("hC14_parts", H.parts_source())
-    targets = [f"{parts}.check_builder_s{i}" for i in range(H.NSH)] + [f"{MOD}.twin_two_fields_same_arg"]
+    from harness import C14_names as HN
+
+    nparts = xh.write_module("hC14_names", HN.parts_source())
+    targets = [f"{parts}.check_builder_s{i}" for i in range(H.NSH)] + [f"{MOD}.twin_two_fields_same_arg"] + [f"{nparts}.check_names_{i}" for i in range(16)]
     res = xh.run_targets(targets, timeout=900 if tier == "quick" else 3000)
     xh.fold(rep, parts, [r for r in res if r.target.startswith(parts)])
     xh.fold(rep, MOD, [r for r in res if r.target.startswith(MOD)])
+    xh.fold(rep, nparts, [r for r in res if r.target.startswith(nparts)])
     rep.coverage.update({
         "evaluations": len(res), "distinct_nontrivial": len(res) - 1, "exhaustive": all(r.status in ("confirmed", "counterexample") for r in res),
         "rule": f"builder expression = 1 or 2 top-level fields out of {H.NSH} shapes (plain, scalar args, list args, sub-field with args, camelCase sub-field, depth-2 args, union inline fragments, aliases, input-object arg, None arg, interface inline fragment) x {len(H.PREFIXES)} history prefixes of previously built operations x sync/async; every scenario in a fresh interpreter; oracle: graphql-core validate against the schema, every set argument bound to exactly one declared variable of the argument's exact type and the caller's value, None omitted, document equal to the one built without history",
@@ -26,7 +30,8 @@ def run(rep, tier):
         "results": [{"target": r.target.rsplit('.', 1)[-1], "status": r.status, "wall_s": round(r.wall, 1)} for r in res],
     })
     rep.sample({"expression": H.SHAPES[6][1], "expected_variables": {"after_0": "String", "limit_0": "Int!"}})
-    rep.assume("two root fields are given distinct aliases by the caller", "transport stubbed")
+    rep.assume("two root fields are given distinct aliases by the caller", "transport stubbed",
+               "naming kernel: two top-level fields each with a child, every presence pattern of an argument on the 4 fields x argument names from {a, a_0, a_0_1, a_1, b}: every argument occurrence must get its own declared variable bound to its value (real to_ast / get_formatted_variables / generated _combine_variables)")
 
 
 def replay(data):
